@@ -1,5 +1,6 @@
 import LogosModel.StateType
 import LogosModel.Passes
+import LogosModel.Lex
 /-!
 # From the DFA to the raw graph: the first half of `Graph::new` (graph/mod.rs, graph/dfa_util.rs)
 
@@ -66,9 +67,16 @@ def closure (d : Dfa) : Nat → List Nat → List Nat → List Nat
       (d.childIds id).foldl (fun acc c => if seen.contains c || acc.contains c then acc else acc ++ [c]) acc) []
     if more.isEmpty then seen else closure d fuel (seen ++ more) more
 
+def insertAsc (x : Nat) : List Nat → List Nat
+  | [] => [x]
+  | y :: ys => if x ≤ y then x :: y :: ys else y :: insertAsc x ys
+
+/-- `sort_unstable` on distinct ids (insertion sort: structural, so that it evaluates in the kernel too) -/
+def sortAsc (l : List Nat) : List Nat := l.foldr insertAsc []
+
 /-- `dfa_util::get_states`: the reachable ids in ascending order -/
 def getStates (d : Dfa) : List Nat :=
-  (closure d (d.rows.length + 1) [d.start] [d.start]).mergeSort (fun a b => a ≤ b)
+  sortAsc (closure d (d.rows.length + 1) [d.start] [d.start])
 
 /-- `ByteClass` of the bytes satisfying `p`, built by `add_byte` in ascending order -/
 def classFor (p : Nat → Bool) : List (Nat × Nat) :=
@@ -119,5 +127,46 @@ def closedB (d : Dfa) : Bool :=
     match d.row id with
     | some r => r.next.length == 256 && r.next.all (S.contains ·) && S.contains r.eoi
     | none => false
+
+/-! ## Reading the DFA directly
+
+What lexing with regex-automata's table means, written without the graph: a match state reports the
+patterns that matched *before* the byte that led to it (matches are delayed by one byte, the end of the
+input counting as a byte), `get_state_type` picks the leaf, the dead state ends the attempt.
+`FromDfaProof.rawOf_walk` shows that a walk of the raw graph is exactly this. -/
+
+def dfaRecord (a : Option Nat) (pos : Nat) (ctx : Option Nat) (tokEnd : Nat) : Option Nat × Nat :=
+  match a with
+  | some l => (some l, pos - 1)
+  | none => (ctx, tokEnd)
+
+def Dfa.acc (d : Dfa) (prios : List Nat) (id : Nat) : Option Nat := acceptOf prios (d.matchingOf id)
+
+def Dfa.hasByteEdge (d : Dfa) (id : Nat) : Bool := (List.range 256).any fun b => d.nextId id b != 0
+
+def dfaAtEoi (d : Dfa) (prios : List Nat) (isPrefix : Bool) (start : Nat) :
+    (fuel : Nat) → (id pos : Nat) → (ctx : Option Nat) → (tokEnd : Nat) → Stop
+  | 0, _, _, _, _ => .diverge
+  | fuel+1, id, pos, ctx, tokEnd =>
+    if (d.hasByteEdge id || d.eoiId id != 0) && isPrefix then .needMore
+    else if id == d.start && start == pos then .endOfInput
+    else if d.eoiId id == 0 then .action pos ctx tokEnd
+    else
+      let r := dfaRecord (d.acc prios (d.eoiId id)) (pos+1) ctx tokEnd
+      dfaAtEoi d prios isPrefix start fuel (d.eoiId id) (pos+1) r.1 r.2
+
+def dfaWalk (d : Dfa) (prios : List Nat) (isPrefix : Bool) (start : Nat) :
+    (id : Nat) → (rest : List Nat) → (pos : Nat) → (ctx : Option Nat) → (tokEnd : Nat) → Stop
+  | id, [], pos, ctx, tokEnd =>
+    let r := dfaRecord (d.acc prios id) pos ctx tokEnd
+    dfaAtEoi d prios isPrefix start ((getStates d).length + 1) id pos r.1 r.2
+  | id, b :: rest, pos, ctx, tokEnd =>
+    let r := dfaRecord (d.acc prios id) pos ctx tokEnd
+    if d.nextId id b == 0 then .action pos r.1 r.2
+    else dfaWalk d prios isPrefix start (d.nextId id b) rest (pos+1) r.1 r.2
+
+/-- one match attempt read off the DFA -/
+def dfaAttempt (d : Dfa) (prios : List Nat) (isPrefix : Bool) (inp : List Nat) (start : Nat) : Attempt :=
+  attemptOfStop (dfaWalk d prios isPrefix start d.start (inp.drop start) start none start)
 
 end Logos.FromDfa
